@@ -1,5 +1,122 @@
 (** C01 - A calculated value equals the rule system's meaning on the given inputs.
-    Only statements here; proofs are in proofs/EngineProofs.v. *)
-From Coq Require Import ZArith List Bool.
-From Verif Require Import Base Cal Period Engine.
+    Only statements here; proofs are in proofs/EngineProofs.v.
+
+    Vocabulary (coq/model/Engine.v): [calc] is the machine (Simulation.calculate with its
+    cache, evaluation stack, cycle and spiral tests and purge); [sem sy pp inp v p] is the
+    meaning of variable [v] at period [p] in rule system [sy] on population [pp] and
+    inputs [inp]: defined by recursion on the rule system only - no cache, no stack.
+    [ranked sy]: every formula of variable number v only reads variables of number < v (or
+    unknown variables), and eternal variables have no formula.  [Top sy pp inp s]: [s] is a
+    state between two top-level requests (empty stack, nothing marked invalid) whose
+    cache holds the inputs and otherwise only meanings. *)
+From Coq Require Import ZArith List Bool Arith String.
+From Verif Require Import Base Cal Period Engine EngineProofs.
 Import ListNotations.
+Open Scope nat_scope.
+Local Notation length := List.length.
+
+(** The value returned by a request is the meaning of the rule system, and the
+    simulation stays in a state where that is true of the next request. *)
+Theorem calculate_refines_den : forall sy pp inp, ranked sy = true -> 1 <= max_loops sy ->
+  forall s v p, Top sy pp inp s ->
+  snd (calc (enough_fuel sy) sy pp s v p) = sem sy pp inp v p
+  /\ Top sy pp inp (fst (calc (enough_fuel sy) sy pp s v p)).
+Proof. exact calculate_refines_meaning. Qed.
+Print Assumptions calculate_refines_den.
+
+Theorem fresh_simulation_is_top : forall sy pp inp, Top sy pp inp (init inp).
+Proof. exact Top_init. Qed.
+Print Assumptions fresh_simulation_is_top.
+
+(** calculate, calculate_add and calculate_divide in any sequence *)
+Theorem requests_refine_den : forall sy pp inp, ranked sy = true -> 1 <= max_loops sy ->
+  forall rs s, forallb is_calc_request rs = true -> Top sy pp inp s ->
+  snd (run (enough_fuel sy) sy pp s rs) = map (sem_answer sy pp inp) rs
+  /\ Top sy pp inp (fst (run (enough_fuel sy) sy pp s rs)).
+Proof. exact run_refines_meaning. Qed.
+Print Assumptions requests_refine_den.
+
+(** What the meaning is: inputs first, then the formula in force, else the default. *)
+Theorem meaning_unfolds : forall sy pp inp, ranked sy = true ->
+  forall v p x, nth_error (vars sy) v = Some x ->
+  D sy pp inp v p =
+    match check_consistency x p with
+    | Err e => Err e
+    | Ok _ =>
+        if v_neutral x then Ok (default_array pp x)
+        else match lookup (v, norm x p) inp with
+             | Some a => Ok a
+             | None =>
+                 match formula_at x p with
+                 | Err e => Err e
+                 | Ok None => Ok (default_array pp x)
+                 | Ok (Some e) => rmap (cast x) (snd (eval (den v sy pp inp) sy pp (v_ent x) tt p e))
+                 end
+             end
+    end.
+Proof. intros sy pp inp _. exact (D_unfold sy pp inp). Qed.
+Print Assumptions meaning_unfolds.
+
+Theorem meaning_is_D : forall sy pp inp, ranked sy = true -> 1 <= max_loops sy ->
+  forall v p, sem sy pp inp v p = D sy pp inp v p.
+Proof. exact sem_D. Qed.
+Print Assumptions meaning_is_D.
+
+(** The formula in force is the last one (formulas are kept in ascending start order)
+    whose start date is on or before the period's start. *)
+Theorem formula_in_force : forall fs d e,
+  latest_formula fs d None = Some e ->
+  exists l1 s l2, fs = l1 ++ (s, e) :: l2 /\ date_leb s d = true
+                  /\ forall s' e', In (s', e') l2 -> date_leb s' d = false.
+Proof.
+  intros fs d e H. destruct (latest_formula_last fs d None e H) as [[H1 _]|H1]; [discriminate|exact H1].
+Qed.
+Print Assumptions formula_in_force.
+
+Theorem no_formula_before_first_start : forall fs d,
+  latest_formula fs d None = None -> forall s e, In (s, e) fs -> date_leb s d = false.
+Proof. exact latest_formula_none. Qed.
+Print Assumptions no_formula_before_first_start.
+
+Theorem bool_results_are_bool : forall x a, v_type x = TBool ->
+  Forall (fun z => z = 0%Z \/ z = 1%Z) (cast x a).
+Proof. exact cast_bool_01. Qed.
+Print Assumptions bool_results_are_bool.
+
+(** A request that re-enters (v, p) while (v, p) is being computed is refused with a
+    circular-definition error and records nothing. *)
+Theorem cycle_refused : forall fuel sy pp s v p x,
+  nth_error (vars sy) v = Some x -> check_consistency x p = Ok tt ->
+  get_array pp x s v p = None -> In (v, p) (stack s) ->
+  calc (S fuel) sy pp s v p = (s, Err ECycle).
+Proof. exact calc_cycle. Qed.
+Print Assumptions cycle_refused.
+
+(** Non-vacuity: a ranked system with two entities, dated formulas, ADD and a group sum;
+    and two circular systems refused from the top. *)
+Definition ex_pop : popu :=
+  {| grp := {| Group.g_entity := {| Group.e_key := "household"%string; Group.e_roles := []; Group.e_containing := [] |};
+               Group.g_count := 2; Group.g_ids := [0; 1; 0]; Group.g_roles := [0; 0; 0] |} |}.
+Definition ex_sys : sys :=
+  {| vars := [ mk_var EPerson TInt Month None [] 0%Z false false;
+               mk_var EPerson TInt Year None
+                 [((1, 1, 1)%Z, EDep 0 PSame OAdd); ((2019, 1, 1)%Z, EBin BAdd (EDep 0 PFirstMonth OPlain) (EConst 1))]
+                 0%Z false false;
+               mk_var EGroup TInt Year None [((1, 1, 1)%Z, EAgg GSum None (EDep 1 PSame OPlain))] 0%Z false false ];
+     params := []; switches := []; max_loops := 1 |}.
+Definition ex_inp : inputs := [((0, (Month, (2018, 3, 1)%Z, 1%Z)), [10; 20; 30]%Z)].
+
+Example ex_ranked : ranked ex_sys = true /\ 1 <= max_loops ex_sys.
+Proof. split; [reflexivity|apply le_n]. Qed.
+Example ex_value :
+  snd (calc (enough_fuel ex_sys) ex_sys ex_pop (init ex_inp) 2 (Year, (2018, 1, 1)%Z, 1%Z)) = Ok [40; 20]%Z.
+Proof. vm_compute. reflexivity. Qed.
+
+Definition ex_cycle : sys :=
+  {| vars := [ mk_var EPerson TInt Month None [((1, 1, 1)%Z, EDep 1 PSame OPlain)] 0%Z false false;
+               mk_var EPerson TInt Month None [((1, 1, 1)%Z, EBin BAdd (EDep 0 PSame OPlain) (EConst 1))] 0%Z false false ];
+     params := []; switches := []; max_loops := 1 |}.
+Example ex_cycle_refused :
+  calc (enough_fuel ex_cycle) ex_cycle ex_pop (init []) 0 (Month, (2018, 1, 1)%Z, 1%Z)
+  = (init [], Err ECycle).
+Proof. vm_compute. reflexivity. Qed.
